@@ -246,3 +246,148 @@ def c07(model, n, gamma_mode):
             recs.append(driver.rec(f"C07/{model}/_compute/any-team-size/canary-unweighted-zero-sum@{shape}", "discharged" if okc else "refuted", "field", 0,
                                    kind="canary", fn=fn, shape=shape, replay=dict(rp, clause="canary")))
     return recs
+
+
+# ------------------------------------------------------------------------------------------------
+# the real rate() on teams of every size: validation, deep copy, tau inflation, sort by symbolic
+# rank / score values (every weak order is a path), the real _compute, unsort, limit_sigma clamp.
+# The clamp loop branches on each member's values: that path then speaks about the members that take
+# that side (teams.py: split teams), which is all a member-wise obligation needs.
+def _rate_paths(model, n, vec, limit, use_t, per_path):
+    """explore rate() on n teams of symbolic size; per_path(ctx, info) emits records for one path"""
+    from .. import extract, game, teams as T
+    from ..symrt import KFLOAT, KINT, Ctx, call, explore
+    tr = T.FoldLoops()
+    S = extract.Scratch(model, transforms={extract.MODEL_FILES[model]: (tr,)})
+    S.ns.update(T.REBINDS)
+    tmf = game.stub_tm_real(S)
+    game.stub_phi_real(S)
+    ctx = Ctx("R", feas_timeout_ms=300)
+    npaths = [0]
+
+    def run(ctx):
+        m, params = game.mk_model(ctx, S, limit_sigma=limit)
+        ctx.assume(term(params["kappa"]) <= 1)
+        ts = [T.SymTeam(ctx, S.rating_cls, i) for i in range(n)]
+        ctx.team_heap = [m]
+        prior = [[(t.g.mu, t.g.sigma)] for t in ts]
+        model_before = dict(m.__dict__)
+        kw, vals = {}, None
+        if vec != "none":
+            vals = [ctx.number(f"r{i}", kinds=(KINT, KFLOAT)) for i in range(n)]
+            kw[vec] = list(vals)
+        tau = params["tau"]
+        if use_t:
+            tau = ctx.real("t")
+            ctx.assume(tau.t >= 0)
+            kw["tau"] = tau
+        out = call(m.rate, ts, **kw)
+        npaths[0] += 1
+        per_path(ctx, dict(m=m, params=params, teams=ts, prior=prior, out=out, tau=tau, vals=vals, tmf=tmf, path=npaths[0],
+                           model_before=model_before, events=list(ctx.events)))
+    explore(ctx, run, max_paths=400)
+    return npaths[0]
+
+
+def rate_units(prop, model, n, vec, limit, use_t):
+    """records of `prop` in (C01, C02, C06) for the real rate() on n teams of every size"""
+    from .. import field, game, teams as T
+    from ..specs import weng_lin as WS
+    from .c06 import _direct_sigma
+    recs = []
+    shape = f"n={n},{vec},limit_sigma={limit},tau={'per-call' if use_t else 'model'},team sizes arbitrary"
+    fn = f"{model}.rate"
+    scale = scale_of(model)
+
+    def rp_for(kind):
+        from . import c01
+        rp = c01._std_replay(model, (2,) * n, None, "default", scale, limit=limit)
+        rp["kind"] = kind
+        rp["vec"] = vec
+        return rp
+
+    def per_path(ctx, I):
+        out, ts, prior = I["out"], I["teams"], I["prior"]
+        tag = f"@{shape},path{I['path']}"
+        if out[0] != "return":
+            if isinstance(out[1], UncutLoop):
+                raise out[1]
+            recs.append(driver.rec(f"{prop}/{model}/rate/any-team-size/returns{tag}", "refuted", "explorer", 0, fn=fn, shape=shape,
+                                   note=repr(out[1])[:200], replay=rp_for("c01_rate")))
+            return
+        rows_ok = isinstance(out[1], list) and len(out[1]) == n and all(isinstance(r, (T.TeamView, T.SymTeam)) and r.root is t.root for r, t in zip(out[1], ts))
+        if prop == "C02":
+            recs.append(driver.rec(f"C02/{model}/rate/any-team-size/result-i-lists-the-members-of-teams-i{tag}", "discharged" if rows_ok else "refuted", "explorer", 0,
+                                   fn=fn, shape=shape, mode="R", replay=None if rows_ok else rp_for("c02_shape"),
+                                   note="" if rows_ok else "a result row is not the member sequence of the team passed at that position"))
+            same = set(I["m"].__dict__) == set(I["model_before"]) and all(game.same_value(I["m"].__dict__[k], v) is True for k, v in I["model_before"].items())
+            recs.append(driver.rec(f"C02/{model}/rate/any-team-size/model-not-written{tag}", "discharged" if same else "refuted", "explorer", 0,
+                                   fn=fn, shape=shape, mode="R", replay=None if same else rp_for("c02_shape")))
+            return
+        if not rows_ok:
+            recs.append(driver.rec(f"{prop}/{model}/rate/any-team-size/returns{tag}", "refuted", "explorer", 0, fn=fn, shape=shape,
+                                   note="result rows are not the teams passed", replay=rp_for("c01_rate")))
+            return
+        if not any(ev[0] == "fold" for ev in I["events"]) or not any(ev[0] == "team-sum" for ev in I["events"]):
+            raise UncutLoop("the execution met no per-member loop / no aggregate over a team")
+        P = field.Prover(ctx.hyps(), list(ctx.facts.values()), timeout_ms=5000)
+        tau = I["tau"]
+        X = game.SymX(I["tmf"])
+        t0 = time.time()
+        if prop == "C06":
+            bad = []
+            for i in range(n):
+                F, sg0 = out[1][i].g.sigma, prior[i][0][1]
+                infl = X.sqrt(sg0 * sg0 + tau * tau)
+                if limit and (F is sg0 or z3.eq(term(F), term(sg0))):
+                    continue                    # clamped to the prior itself
+                ok = (P.prove_ge_poly(P.N.norm(term(F)), strict=True)[0] == "discharged") if limit else _direct_sigma(P, term(F), term(infl))
+                if ok and limit:
+                    from ..tactics import check_sat
+                    ok = check_sat([h for h in ctx.pc] + [z3.Not(term(F) <= term(sg0))], timeout_ms=3000, use_cvc5=False, nlsat=False)[0] == "unsat"
+                if not ok:
+                    bad.append(i)
+            nm = "limit" if limit else "tau-bound"
+            recs.append(driver.rec(f"C06/{model}/rate/any-team-size/{nm}{tag}", "discharged" if not bad else "open", "field-sign+z3", time.time() - t0,
+                                   fn=fn, shape=shape, mode="R", note=f"failed for the arbitrary member of teams {bad}" if bad else "",
+                                   replay=None if not bad else rp_for("c06_sigma")))
+            return
+        # C01: equals the property's description of rate() on the aggregates
+        vals = I["vals"]
+        spec = WS.rate_spec(model, prior, list(vals) if vec == "ranks" else None, list(vals) if vec == "scores" else None,
+                            I["params"]["beta"], I["params"]["kappa"], tau, limit, X, pair_scale=scale,
+                            agg=([t.theta for t in ts], [t.s for t in ts]), sizes=[T.t_len(t) for t in ts])
+        okm = oks = True
+        notes = []
+        for i in range(n):
+            o, be, note, t = P.prove_eq(term(out[1][i].g.mu), term(spec[i][0][0]))
+            if not o:
+                okm = False
+                notes.append(f"mu[{i}] {note}")
+            o, be, note, t = P.prove_eq(term(out[1][i].g.sigma), term(spec[i][0][1]))
+            if not o:
+                oks = False
+                notes.append(f"sigma[{i}] {note}")
+        dt = time.time() - t0
+        rp = None
+        if not (okm and oks):
+            from ..tactics import check_sat, model_to_dict
+            from .util import enc_model
+            r, _, mdl, _ = check_sat(ctx.hyps(), timeout_ms=5000, use_cvc5=False, nlsat=False)
+            md = model_to_dict(mdl) if mdl is not None else {}
+            rp = rp_for("c01_rate")
+            if vals is not None:
+                rp[vec] = [enc_model(md, f"r{i}") for i in range(n)]
+            if use_t:
+                rp["t"] = {"v": [1, 2], "k": "float"}
+        recs.append(field_rec(f"C01/{model}/rate/any-team-size/mu{tag}", okm, "field", "; ".join(notes)[:300], dt / 2, fn, shape, rp))
+        recs.append(field_rec(f"C01/{model}/rate/any-team-size/sigma{tag}", oks, "field", "; ".join(notes)[:300], dt / 2, fn, shape, rp))
+    try:
+        npaths = _rate_paths(model, n, vec, limit, use_t, per_path)
+    except UncutLoop as e:
+        return [driver.rec(f"{prop}/{model}/rate/any-team-size/unbounded-proof@{shape}", "note", "explorer", 0, kind="note", fn=fn, shape=shape,
+                           note=f"not attempted: {e}")]
+    if not recs:
+        recs.append(driver.rec(f"{prop}/{model}/rate/any-team-size/unbounded-proof@{shape}", "note", "explorer", 0, kind="note", fn=fn, shape=shape,
+                               note=f"not attempted: no path of rate() produced an obligation ({npaths} paths)"))
+    return recs
